@@ -66,6 +66,53 @@ def install_dsl():
 install_dsl()
 
 
+def w203_bounded(sess: Session, why: str):
+    """W203 by small-scope enumeration on the real check: every lexicon with <= 3 entries (lemma in {a, b}), each with
+    <= 2 senses in synsets {x, y}: the reported keys are exactly the lemmas shared by two different entries that both
+    have a sense in one synset; the call does not raise and does not touch the id tables."""
+    import itertools
+    from collections import Counter
+    func = V._codes['W203']
+    shapes = [(lem, ss) for lem in 'ab' for n in range(3) for ss in itertools.product('xy', repeat=n)]
+    cases, bad = 0, []
+    for n in range(4):
+        for combo in itertools.product(shapes, repeat=n):
+            entries = [{'id': f'e{i}', 'lemma': {'writtenForm': lem, 'partOfSpeech': 'n'},
+                        'senses': [{'id': f'e{i}s{j}', 'synset': x} for j, x in enumerate(ss)]}
+                       for i, (lem, ss) in enumerate(combo)]
+            lex = {'id': 'l', 'entries': entries, 'synsets': [{'id': 'x'}, {'id': 'y'}]}
+            ids = {'entry': Counter(e['id'] for e in entries), 'sense': Counter(
+                s['id'] for e in entries for s in e['senses']), 'synset': Counter(['x', 'y'])}
+            before = {k: Counter(v) for k, v in ids.items()}
+            cases += 1
+            try:
+                got = set(func(lex, ids))
+            except Exception as exc:   # noqa: BLE001
+                bad.append({'lexicon': combo, 'raised': repr(exc)})
+                continue
+            want = {k for k in 'ab' if spec_validate_native_W203(lex, k)}
+            if got != want or ids != before:
+                bad.append({'entries (lemma, synsets of its senses)': combo, 'reported': sorted(got),
+                            'documented': sorted(want)})
+    sess.add_bounded('wn.validate._redundant_entry (W203)', 'every lexicon with <= 3 entries x lemma in {a,b} x <= 2 '
+                     'senses in synsets {x,y}', cases, f'native execution against the documented condition (symbolic '
+                     f'route not available: {why})', not bad)
+    if bad:
+        sess.violation_direct('wn.validate._redundant_entry:exact:bounded', 'W203 does not list exactly the lemmas of '
+                              'redundant entries', {'witness': repr(bad[0])[:1500], 'cases': len(bad)}, True,
+                              functions=('wn.validate._redundant_entry',))
+
+
+def spec_validate_native_W203(lex, k):
+    es = lex['entries']
+    return any(e1['lemma']['writtenForm'] == k and e2['lemma']['writtenForm'] == k
+               and any(s1['synset'] == s2['synset'] for s1 in e1['senses'] for s2 in e2['senses'])
+               for i, e1 in enumerate(es) for j, e2 in enumerate(es) if i != j)
+
+
+BOUNDED_FALLBACK = {'W203': w203_bounded}
+
+
 def check_obligations() -> list:
     obs = []
     for code, func in V._codes.items():
@@ -74,7 +121,10 @@ def check_obligations() -> list:
         try:
             outs = explore_check(func, lex, build_ids)
         except Unsupported as exc:
-            obs.append(('unsupported', name, str(exc)))
+            if code in BOUNDED_FALLBACK:
+                obs.append(('bounded', name, code, str(exc)))      # decided by a labelled small-scope enumeration
+            else:
+                obs.append(('unsupported', name, str(exc)))
             continue
         spec = getattr(spec_validate, code, None)
         for o in outs:
@@ -423,7 +473,9 @@ def run(sess: Session):
     cli_bounded(sess)
     sess.trust('vc/pyvc', 'collections.Counter: count(x) > 1 iff x occurs at two positions (A-PY-COUNTER)')
     for item in check_obligations():
-        if isinstance(item, tuple):
+        if isinstance(item, tuple) and item[0] == 'bounded':
+            BOUNDED_FALLBACK[item[2]](sess, item[3])
+        elif isinstance(item, tuple):
             sess.unsupported(item[1], item[2])
         else:
             sess.check(item)
